@@ -90,6 +90,9 @@ structure State where
   /-- clocks of the circuit, `Clock::m_clockedNodes` (a set; kept as a duplicate-free list) -/
   nclocks : Nat
   clocked : Nat → List NodePort
+  /-- `Clock::m_clockedNodesCache` (`[]` = not built): filled and sorted by `getClockedNodes()` when empty (Clock.cpp:94-103), appended
+  to by `attachClock` iff non-empty (Node.cpp:146-147), cleared by `detachClock` (Node.cpp:157) -/
+  cache : Nat → List NodePort
   /-- the clock object has not been destroyed (`Clock::~Clock`, Clock.cpp:41-45) -/
   calive : Nat → Bool
   /-- node class as far as clocks care: 0 ordinary, 1 `Node_Signal2Clk`, 2 `Node_Signal2Rst` -/
@@ -120,6 +123,7 @@ def State.init : State where
   gnodes := fun _ => []
   nclocks := 0
   clocked := fun _ => []
+  cache := fun _ => []
   calive := fun _ => false
   dk := fun _ => 0
   drv := fun _ _ => none
@@ -159,6 +163,11 @@ def DriverInv (size : Nat) (alive : Nat → Bool) (dk : Nat → Nat) (numClk : N
   ∀ c, c < nclocks → calive c = true → ∀ k, k < 3 → k ≠ 0 → ∀ d ∈ drv k c,
     d < size ∧ alive d = true ∧ dk d = k ∧ 0 < numClk d ∧ clk d 0 = some c
 
+/-- the sorted view handed out by `Clock::getClockedNodes()` is either not built or holds exactly the registered (node, port) pairs,
+each once -/
+def CacheInv (nclocks : Nat) (clocked cache : Nat → List NodePort) : Prop :=
+  ∀ c, c < nclocks → cache c = [] ∨ ((cache c).Nodup ∧ (∀ x ∈ cache c, x ∈ clocked c) ∧ (∀ x ∈ clocked c, x ∈ cache c))
+
 /-- node ids are unique among live nodes and below the allocation counter -/
 def IdInv (size : Nat) (alive : Nat → Bool) (nid : Nat → Nat) (nextId : Nat) : Prop :=
   (∀ h, h < size → alive h = true → nid h < nextId) ∧
@@ -175,7 +184,8 @@ def GInv (s : State) : Prop :=
   ClockInv s.size s.alive s.numClk s.clk s.nclocks s.clocked ∧
   IdInv s.size s.alive s.nid s.nextId ∧
   CAInv s.size s.alive s.numClk s.clk s.calive ∧
-  DriverInv s.size s.alive s.dk s.numClk s.clk s.nclocks s.calive s.drv
+  DriverInv s.size s.alive s.dk s.numClk s.clk s.nclocks s.calive s.drv ∧
+  CacheInv s.nclocks s.clocked s.cache
 
 /-- the well-formedness invariant of property C09 -/
 def Inv (s : State) : Prop := GInv s ∧ OrderInv s.size s.alive s.order
@@ -193,6 +203,8 @@ instance (size alive numClk clk calive) : Decidable (CAInv size alive numClk clk
   unfold CAInv; infer_instance
 instance (size alive dk numClk clk nclocks calive drv) : Decidable (DriverInv size alive dk numClk clk nclocks calive drv) := by
   unfold DriverInv; infer_instance
+instance (nclocks clocked cache) : Decidable (CacheInv nclocks clocked cache) := by
+  unfold CacheInv; infer_instance
 instance (size alive order) : Decidable (OrderInv size alive order) := by
   unfold OrderInv; infer_instance
 instance (s : State) : Decidable (GInv s) := by unfold GInv; infer_instance
@@ -330,7 +342,8 @@ def detachClock (s : State) (h p : Nat) : Res State :=
   | none => .ok s
   | some c =>
     if ¬ c < s.nclocks then .error .ub else
-    .ok { s with clocked := upd s.clocked c ((s.clocked c).erase ⟨h, p⟩), clk := upd2 s.clk h p none }
+    .ok { s with clocked := upd s.clocked c ((s.clocked c).erase ⟨h, p⟩), clk := upd2 s.clk h p none,
+                 cache := upd s.cache c [] }
 
 /-- `set.emplace(x)` -/
 def setInsert (l : List NodePort) (x : NodePort) : List NodePort := if x ∈ l then l else l ++ [x]
@@ -343,7 +356,8 @@ def attachClock (s : State) (h p : Nat) (c : Option Nat) : Res State :=
   (detachClock s h p).bind fun s1 =>
     match c with
     | none => .ok { s1 with clk := upd2 s1.clk h p none }
-    | some c => .ok { s1 with clk := upd2 s1.clk h p (some c), clocked := upd s1.clocked c (setInsert (s1.clocked c) ⟨h, p⟩) }
+    | some c => .ok { s1 with clk := upd2 s1.clk h p (some c), clocked := upd s1.clocked c (setInsert (s1.clocked c) ⟨h, p⟩),
+                              cache := upd s1.cache c (if s1.cache c = [] then [] else s1.cache c ++ [⟨h, p⟩]) }
 
 /-- `BaseNode::addClock` (Node.cpp:131-135) -/
 def addClock (s : State) (h : Nat) (c : Option Nat) : Res State :=
@@ -406,8 +420,21 @@ def createGroup (s : State) : State :=
 
 /-- `Circuit::createClock` : a new clock nobody is attached to -/
 def createClock (s : State) : State :=
-  { s with nclocks := s.nclocks + 1, clocked := upd s.clocked s.nclocks [], calive := upd s.calive s.nclocks true,
+  { s with nclocks := s.nclocks + 1, clocked := upd s.clocked s.nclocks [], cache := upd s.cache s.nclocks [],
+           calive := upd s.calive s.nclocks true,
            drv := fun k c => if c = s.nclocks then none else s.drv k c }
+
+/-- insertion sort by `StableCompare<NodePort>` (StableContainers.cpp:30-41): node id, then port -/
+def insertNP (key : Nat → Nat) (e : NodePort) : List NodePort → List NodePort
+  | [] => [e]
+  | x :: xs => if key e.node < key x.node ∨ (key e.node = key x.node ∧ e.port < x.port) then e :: x :: xs else x :: insertNP key e xs
+def sortNP (key : Nat → Nat) (l : List NodePort) : List NodePort := l.foldl (fun acc e => insertNP key e acc) []
+
+/-- `Clock::getClockedNodes()` (Clock.cpp:94-103): builds the cache from the set when it is empty (`std::sort` with a total order on
+distinct entries: the result does not depend on the set's iteration order) -/
+def getClockedNodes (s : State) (c : Nat) : Res State :=
+  if ¬ (c < s.nclocks ∧ s.calive c = true) then .error .ub else
+  if s.cache c = [] then .ok { s with cache := upd s.cache c (sortNP s.nid (s.clocked c)) } else .ok s
 
 /-- `Clock::setLogicClockDriver` (`k = 1`, Clock.cpp:165-171) / `Clock::setLogicResetDriver` (`k = 2`, Clock.cpp:173-179):
 the previous driver node is released (`setClock(nullptr)` = `attachClock(nullptr, 0)`), the new one stored and attached.
@@ -584,6 +611,7 @@ inductive Op where
   | copySubnet (inputs outputs : List NodePort) (copyClocks : Bool)
   | destroyClock (c : Nat)
   | setLogicDriver (k c d : Nat)
+  | getClockedNodes (c : Nat)
 deriving Repr
 
 def step (s : State) : Op → Res State
@@ -610,6 +638,7 @@ def step (s : State) : Op → Res State
   | .copySubnet ins outs cc => copySubnet s ins outs cc
   | .destroyClock c => destroyClock s c
   | .setLogicDriver k c d => setLogicDriver s k c d
+  | .getClockedNodes c => getClockedNodes s c
 
 /-- run a history; an operation that throws leaves the state as it was (all modelled guards are checked before the first
 mutation) and the history continues, exactly like a caller that catches the exception; `.ub/.abort/.diverge` end it. -/
